@@ -34,6 +34,7 @@ inductive CInstr
   | movSmall (r : String) (v : Int)        -- mov r, #v
   | movz (r : String) (chunk : Nat)
   | movk (r : String) (chunk : Nat) (shift : Nat)
+  | movn (r : String) (chunk : Nat)        -- mov-wide-with-NOT: r := ~chunk (never generated; understood by the oracle)
   | adrp (r : String) (s : String)
   | addLo12 (r : String) (s : String)
   | strSlot (r : String) (slot : Nat)      -- str r, [sp, #slot]
@@ -144,6 +145,7 @@ def cstep (env : SymEnv) (W : Int) (pushLo pushHi : Int) (calleePops : Int) (i :
   | .movSmall r v =>
     if 0 ≤ v ∧ v ≤ 0xFFFF then .ok { σ with reg := setReg σ.reg r v } else .error (.immRange "mov #imm")
   | .movz r c => .ok { σ with reg := setReg σ.reg r c }
+  | .movn r c => .ok { σ with reg := setReg σ.reg r (-(c : Int) - 1) }
   | .movk r c sh =>
     let v : Int := σ.reg r - ((σ.reg r / (2 ^ sh : Int)) % 65536) * 2 ^ sh + (c : Int) * 2 ^ sh
     .ok { σ with reg := setReg σ.reg r v }
